@@ -71,6 +71,6 @@ PROP_UNITS = {
     'C18': {'verus': ['ratio_farey', 'float_error_bounds', 'float_error_bounds_halfeven', 'ratio_simplest'],
             'undecided': ['ErrorBounds::error_bounds: proved for an even base and a non-zero f with a normalized significand '
                           '(zero and odd bases are outside the model)',
-                          'simplest_from_f32 / simplest_from_f64 / simplest_from_float: not under contract (f32/f64 code; the '
-                          'interval logic after fix S6 is checked by a native oracle test only)']},
+                          'simplest_from_f32 / simplest_from_f64 / simplest_from_float: proved in the units of simplestf.py '
+                          '(even bases; odd bases are the recorded known finding)']},
 }
